@@ -136,6 +136,8 @@ def run_isolated(cases, per_case_timeout=20, mem_kb=6 * 1024 * 1024):
 
 
 def norm_msg(m):
+    # the visitor's panic prints the whole acceptor: keep its type only
+    m = re.sub(r"(Found a `\w+` state for Acceptor: )(\w+).*?( @[\w/.]+)?$", r"\1\2 ..\3", m, flags=re.S)
     m = re.sub(r'\\?"[^"\\]*\\?"', "<s>", m)
     m = re.sub(r"\b(map|reduce|join|set|field|table|relation|values|left_)_[a-z0-9_]{4}\b", "<name>", m)
     m = re.sub(r"-?\d[\d.e+-]*", "N", m)
